@@ -146,7 +146,14 @@ func (g *Gen) loopWrites(li *loopInfo) (objs []string, regions []region, allocs 
 			case *ssa.MakeSlice, *ssa.MakeMap, *ssa.MakeChan, *ssa.MakeClosure:
 				allocs = true
 			case *ssa.MakeInterface:
-				// interface boxes are abstract references, not objects
+				if obj, h := g.hoisted[x]; h {
+					if !seen[obj] {
+						seen[obj] = true
+						objs = append(objs, obj)
+					}
+				} else if g.isAgg(x.X.Type()) && g.lay.Size(x.X.Type()) > 0 {
+					allocs = true
+				}
 			case *ssa.Go:
 				allocs = true
 				// goroutine effects are handled by the protocol rules; writes of the closure body
@@ -160,14 +167,19 @@ func (g *Gen) loopWrites(li *loopInfo) (objs []string, regions []region, allocs 
 						why = "interface call without contract: " + cc.Method.FullName()
 						continue
 					}
-					g.callWrites(ct, cc, addTarget, addRoot, &ok, &why, &allocs)
+					g.callWrites(li, ct, cc, addTarget, addRoot, addRegion, &ok, &why, &allocs)
 					continue
 				}
 				if _, isB := cc.Value.(*ssa.Builtin); isB {
 					b := cc.Value.(*ssa.Builtin)
 					if b.Name() == "append" {
 						allocs = true
-						addRoot(cc.Args[0])
+						if r := rootOf(cc.Args[0]); g.definedOutside(li, r) {
+							addRoot(cc.Args[0])
+						} else {
+							// loop-carried slice: checked at the append site (target allocated since loop entry)
+							li.appendFresh = true
+						}
 					}
 					if b.Name() == "copy" {
 						addTarget(cc.Args[0])
@@ -189,7 +201,7 @@ func (g *Gen) loopWrites(li *loopInfo) (objs []string, regions []region, allocs 
 					why = "call of " + callee.String() + " (no contract)"
 					continue
 				}
-				g.callWrites(ct, cc, addTarget, addRoot, &ok, &why, &allocs)
+				g.callWrites(li, ct, cc, addTarget, addRoot, addRegion, &ok, &why, &allocs)
 			}
 		}
 	}
@@ -216,7 +228,7 @@ func baseIdent(e *Expr) string {
 	return ""
 }
 
-func (g *Gen) callWrites(ct *Contract, cc *ssa.CallCommon, addTarget, addRoot func(ssa.Value), ok *bool, why *string, allocs *bool) {
+func (g *Gen) callWrites(li *loopInfo, ct *Contract, cc *ssa.CallCommon, addTarget, addRoot func(ssa.Value), addRegion func(region), ok *bool, why *string, allocs *bool) {
 	if ct.ModAny {
 		*ok = false
 		*why = "callee " + ct.Key + " modifies *"
@@ -229,6 +241,32 @@ func (g *Gen) callWrites(ct *Contract, cc *ssa.CallCommon, addTarget, addRoot fu
 		}
 		id := baseIdent(m.E)
 		found := false
+		// ghost cells of abstract readers / writers: one Int cell at a negative offset of the reference
+		if m.E.Op == "call" && m.E.Args[0].Op == "id" && len(m.E.Args) == 2 && m.E.Args[1].Op == "id" {
+			if off, isGhostCell := map[string]string{"rpos": "(- 1)", "wcalls": "(- 2)", "wlen": "(- 3)"}[m.E.Args[0].Tok]; isGhostCell {
+				for i, n := range names {
+					if n == m.E.Args[1].Tok && i < len(cc.Args) && g.definedOutside(li, cc.Args[i]) {
+						addRegion(region{"Int", g.val(cc.Args[i]).S[0], off, fmt.Sprintf("(+ %s 1)", off), 1})
+						found = true
+					}
+				}
+				if found {
+					continue
+				}
+			}
+		}
+		if m.E.Op == "call" && m.E.Args[0].Op == "id" && m.E.Args[0].Tok == "wout" && len(m.E.Args) == 4 && m.E.Args[1].Op == "id" {
+			// output bytes of an abstract writer: some non-negative offsets of its ghost row (Int cells only)
+			for i, n := range names {
+				if n == m.E.Args[1].Tok && i < len(cc.Args) && g.definedOutside(li, cc.Args[i]) {
+					addRegion(region{"Int", g.val(cc.Args[i]).S[0], "0", "9223372036854775808", -1})
+					found = true
+				}
+			}
+			if found {
+				continue
+			}
+		}
 		for i, n := range names {
 			if n == id && i < len(cc.Args) {
 				// "*p" / "p" with p a pointer or slice parameter: exactly the pointee / the elements
@@ -255,6 +293,7 @@ func (g *Gen) callWrites(ct *Contract, cc *ssa.CallCommon, addTarget, addRoot fu
 
 func (g *Gen) loopEntry(li *loopInfo, preds []*ssa.BasicBlock, conds []string) {
 	b := li.header
+	li.preNext = g.nextobj
 	// 1. invariants hold on entry
 	phiEntry := map[string]*Val{}
 	var phis []*ssa.Phi
@@ -284,6 +323,7 @@ func (g *Gen) loopEntry(li *loopInfo, preds []*ssa.BasicBlock, conds []string) {
 	li.preHeap = copyMap(g.heap)
 	objs, regions, allocs, ok, why := g.loopWrites(li)
 	preNext := g.nextobj
+	li.preNext = preNext
 	if !ok {
 		g.eng.note(g, fmt.Sprintf("loop %d: heap fully havocked (%s)", li.ordinal, why))
 		for _, s := range g.sorts {
@@ -464,6 +504,18 @@ func (g *Gen) instr(ins ssa.Instruction) {
 		src := g.val(x.X)
 		if _, isPtr := x.X.Type().Underlying().(*types.Pointer); isPtr {
 			g.vals[x] = &Val{T: x.Type(), Sort: "Int", S: []string{src.S[0]}}
+			return
+		}
+		if g.isAgg(x.X.Type()) && g.lay.Size(x.X.Type()) > 0 {
+			// boxing an array/struct value: the interface refers to a fresh object holding a copy
+			var obj string
+			if h, ok := g.hoisted[x]; ok {
+				obj = h
+			} else {
+				obj = g.alloc("box")
+			}
+			g.store(x.X.Type(), obj, "0", src)
+			g.vals[x] = &Val{T: x.Type(), Sort: "Int", S: []string{obj}}
 			return
 		}
 		id := g.freshConst("iface", "Int")
